@@ -495,3 +495,54 @@ def c06(run):
     run.add_samples(oks[:2])
     run.assumptions = [SYMBOLIC, 'key algorithm x hash combinations are rotated over the texts in the quick tier (all combinations for short texts in the thorough tier)']
     run.notes['trusted_base'] = TRUSTED
+
+
+# ---------------------------------------------------------------------------
+# C18  recipients
+
+def ring_cfg(keys, cross, maxesks, maxpres, invs='ProcWithinIntended'):
+    ks = '{' + ', '.join('"%s"' % k for k in keys) + '}'
+    return f"""CONSTANTS
+  Keys = {ks}
+  CrossGroupCheck = {'TRUE' if cross else 'FALSE'}
+  MaxEsks = {maxesks}
+  MaxPresented = {maxpres}
+SPECIFICATION Spec
+INVARIANTS {invs}
+CHECK_DEADLOCK FALSE
+"""
+
+
+@prop('C18', 'model_checking')
+def c18(run):
+    run.mc('MCRing', ring_cfg(['A', 'B'], True, 2, 1), name='mc', timeout=run.q(300, 1200))
+    if run.tier == 'thorough':
+        run.mc('MCRing', ring_cfg(['A', 'B', 'C'], True, 2, 1), name='mc3', timeout=2400)
+    run.mc('MCRing', ring_cfg(['A', 'B'], False, 1, 1), name='sens_no_cross_group_check', expect_violation='ProcWithinIntended')
+    g = run.mc('MCRing', ring_cfg(['A', 'B'], True, 2, 1, invs='GenCase'), name='gen', workers=1, count=False, timeout=1200)
+    cases = g.cases
+    if run.tier != 'thorough':
+        # quick: every configuration with <= 1 ESK, and a seeded 1-in-4 sample of the 2-ESK ones
+        rnd = random.Random(run.seed)
+        cases = [c for c in cases if len(c['cfg']['esks']) <= 1 or rnd.random() < 0.25]
+    if run.replay and run.replay.get('source_case'):
+        cases = [run.replay['source_case']]
+    for i, c in enumerate(cases):
+        c['ci'] = i
+    body, summary, oks = run.harness('c18', cases, timeout=3300)
+    run.distinct_nontrivial = summary['extra']['nontrivial']
+    run.traces_validated = summary['evaluations']
+    run.exhaustive = run.tier == 'thorough'
+    run.rule = ('Ring.tla defines configurations (family v1 = SEIPDv1+PKESKv3+SKESKv4 / v2 = SEIPDv2+PKESKv6+SKESKv6; <= 2 ESKs, each a PKESK with named '
+                'recipient in {A, B, wildcard} really encrypted to A or B - so decoys occur - or an SKESK for a password; presented: <= 1 key with lock '
+                'state open / locked+right password / locked+wrong password, <= 1 message password incl. an unrelated one, <= 1 session key good|bad, '
+                'abort_early on|off), the set of outcomes the property allows (Intended) and the procedure of the code (Proc); TLC checks Proc within '
+                'Intended on all 48 384 configurations (x nondeterministic v4 plausibility) and emits them. The harness realises each with real keys '
+                '(ECDH Cv25519 / P-256, X25519, X448; locked copies), hand-assembled ESK packets incl. decoys and wildcards, and runs '
+                'decrypt_the_ring + read_to_end: outcome class must be allowed and a returned plaintext must be the original. '
+                'non-trivial = configurations with exactly one allowed outcome')
+    run.add_samples(cases[500:502])
+    run.add_samples(oks[:2])
+    run.assumptions = [SYMBOLIC, 'quick tier replays all 1-ESK configurations and a seeded quarter of the 2-ESK ones; thorough replays all',
+                       'v4 SKESK + unrelated password is DontCare (no integrity on the wrapped key), as the property says']
+    run.notes['trusted_base'] = TRUSTED
